@@ -33,8 +33,9 @@ def load():
 
 
 class Cell:
-    def __init__(self, a, b, c):
-        self.a, self.b, self.c = a, b, c
+    def __init__(self, a, b, c, d=None):
+        # d = sign(len(number) - length); len(number) >= len(part) always
+        self.a, self.b, self.c, self.d = a, b, c, d
 
 
 def decide(test, cell, names):
@@ -43,6 +44,10 @@ def decide(test, cell, names):
 
     def term(n):
         s = src(n)
+        if isinstance(n, ast.Name) and s in names.get('aliases', {}):
+            return term(names['aliases'][s])
+        if s == 'len(%s)' % names.get('number', '\0'):
+            return 'LN'
         if s == 'len(%s)' % part:
             return 'LP'
         if s == length:
@@ -56,7 +61,7 @@ def decide(test, cell, names):
         raise AnalysisError('%s: _find guard uses the term `%s`, which is not one of len(part), length, low, high, part[:length]' % (FILE, s))
 
     def rel(x, y):
-        table = {('LP', 'LEN'): cell.a, ('LOW', 'P'): cell.b, ('P', 'HIGH'): cell.c}
+        table = {('LP', 'LEN'): cell.a, ('LOW', 'P'): cell.b, ('P', 'HIGH'): cell.c, ('LN', 'LEN'): cell.d}
         if (x, y) in table:
             return table[(x, y)]
         if (y, x) in table:
@@ -197,17 +202,26 @@ def check_find(rep, methods):
               'before the loop the candidate part must be the whole number and the collected properties/children fresh empty containers')
     if not (len(part) == 1 and len(accp) == 1 and len(accc) == 1):
         return None
+    aliases = {}
+    for st in init:
+        if isinstance(st, ast.Assign) and len(st.targets) == 1 and isinstance(st.targets[0], ast.Name) and st.targets[0].id not in (part[0], accp[0], accc[0]):
+            stores = [x for x in ast.walk(fn) if isinstance(x, ast.Name) and isinstance(x.ctx, ast.Store) and x.id == st.targets[0].id]
+            if len(stores) == 1:
+                aliases[st.targets[0].id] = st.value
     names = {'length': tnames[0], 'low': tnames[1], 'high': tnames[2], 'props': tnames[3], 'children': tnames[4],
-             'part': part[0], 'acc_props': accp[0], 'acc_children': accc[0]}
+             'part': part[0], 'acc_props': accp[0], 'acc_children': accc[0], 'number': number, 'aliases': aliases}
     # --- decision table
     if loop.orelse:
         raise AnalysisError('%s:%d for/else in _find' % (FILE, loop.lineno))
-    for a, b, c in itertools.product((-1, 0, 1), repeat=3):
-        cell = Cell(a, b, c)
+    for a, b, c, d in itertools.product((-1, 0, 1), repeat=4):
+        # len(number) >= len(part): the whole number is never shorter than the candidate part
+        if (a > 0 and d <= 0) or (a == 0 and d < 0):
+            continue
+        cell = Cell(a, b, c, d)
         acts = run_body(loop.body, cell, names)
         form, problem = normal_form(acts)
         want = spec_actions(a, b, c)
-        desc = 'len(part)%slength, low%spart[:length], part[:length]%shigh' % tuple('<=>'[x + 1] for x in (a, b, c))
+        desc = 'len(part)%slength, low%spart[:length], part[:length]%shigh, len(number)%slength' % tuple('<=>'[x + 1] for x in (a, b, c, d))
         if problem is not None and problem.startswith('ALIAS:'):
             rep.fail('DT.no-alias', FILE, '_find', problem[6:], loop.lineno,
                      'the result would share a container with the loaded registry: later lookups change when the caller mutates it')
@@ -352,7 +366,24 @@ def check(tier):
     check_wrappers(rep, methods)
     if names:
         check_layout(rep, methods, funcs, names)
-    rep.unit('order types', 27)
-    rep.expect_at_least('DT.cell', 27, 'order-type cells')
+    # the reader hands every written property of every line to the tree (shipped registries + the test registry)
+    from ..reg import ReaderModel, Registry, registry_files
+    model = ReaderModel()
+    files = registry_files()
+    extra = os.path.join(REPO, 'tests', 'numdb-test.dat')
+    if os.path.exists(extra):
+        files.append(extra)
+    nlines = 0
+    for path in files:
+        reg = Registry(model, path)
+        nlines += reg.lines
+        bad = [p for p in reg.problems if p[0] == 'REG.reader-complete']
+        for rule, line, text, detail in bad[:20]:
+            rep.fail('DT.reader-complete', reg.rel, '-', text[:120], line, detail + ': the properties attached to a part are not those the file prescribes')
+        if not bad:
+            rep.ok('DT.reader-complete', reg.rel, '%d lines: the reader model returns every written property' % reg.lines)
+    rep.unit('registry lines read through the reader model', nlines)
+    rep.unit('order types', 54)
+    rep.expect_at_least('DT.cell', 54, 'order-type cells')
     rep.not_decided = ['indentation-to-tree reader on files that violate the well-formedness rules C11 checks for the shipped files']
     return rep.finish()
